@@ -211,6 +211,8 @@ MUTANTS = [
     ('C15', 'success-errors-unlatched', (R, HTTP, "                if req.handled:\n                    # answered with an error already (see _on_exception)\n                    return\n                req.handled = True\n", ""), 'C15.f'),
     ('C14', 'entry-stored-before-version-check', (R, HTTP, "            rp = req.protocol\n            sp = self.protocol\n", "            self._clients[sock] = (req, res)\n            rp = req.protocol\n            sp = self.protocol\n"), 'C14.h'),
     ('C14', '505-keeps-parser', (R, HTTP, "                del self._buffers[sock]\n                return self.fire(httperror(req, res, 505))", "                return self.fire(httperror(req, res, 505))"), 'C14.h'),
+    ('C18', 'bytes-args-kept-raw', (R, 'circuits/protocols/irc/message.py', "        self.args = [arg if isinstance(arg, str) else arg.decode(self.encoding) for arg in args if arg is not None]", "        self.args = [arg for arg in args if arg is not None]"), 'C18.c'),
+    ('C10', 'poll-ignores-nval', (R, POLLERS, "select.POLLHUP | select.POLLERR | select.POLLNVAL", "select.POLLHUP | select.POLLERR"), 'C10.g'),
 ]
 
 # behaviour-preserving edits: the check of the property must stay silent
